@@ -88,6 +88,7 @@ class HistPlan(Plan):
     thorough = dict(dbg=120000, rel=60000, off=20000, nostd=20000, asan=16000, miri=192, miri_ops=140, ops=300, memcheck=400)
     san_props = ("C01",)
     crash_props = ("C01",)
+    with_thin = True
 
     def jobs(self, tier, seed):
         b = self.quick if tier == "quick" else self.thorough
@@ -105,6 +106,12 @@ class HistPlan(Plan):
                            extra=["shadow=0"], timeout=3000)
         if b.get("miri"):
             j += miri_hist_jobs(b["miri"], b["miri_ops"], seed, self.san_props, tb_every=4)
+        if self.with_thin:
+            j += thin_jobs("dbg", b["dbg"] // 4, b["ops"], seed, self.san_props, self.crash_props, nshards=NCPU if big else 2, first0=7 * 10 ** 6)
+            if b.get("asan"):
+                j += thin_jobs("asan", b["asan"] // 4, b["ops"], seed, self.san_props, self.crash_props, nshards=NCPU if big else 2, first0=8 * 10 ** 6, extra=["shadow=0"])
+            if b.get("miri"):
+                j += miri_hist_jobs(max(4, b["miri"] // 4), b["miri_ops"], seed, self.san_props, tb_every=4, engine="thin", first0=9 * 10 ** 6)
         return j
 
     def required(self, counts, sets, other):
@@ -175,6 +182,299 @@ class C03seq(HistPlan):
     crash_props = ()
 
 
+
+def conc_jobs(mode, scen, total, seed, props, delay=1, nshards=4, first0=0, length=8, timeout=900):
+    jobs = []
+    for (first, cnt) in shards(total, nshards):
+        args = ["conc", "scen=%s" % scen, "seed=%d" % seed, "first=%d" % (first0 + first), "n=%d" % cnt, "len=%d" % length, "delay=%d" % delay]
+        if mode in ("asan", "tsan"):
+            args.append("shadow=0")
+        jobs.append(Job(mode, args, san_props=props, crash_props=props, timeout=timeout))
+    return jobs
+
+
+def miri_conc_jobs(scen, nseeds, per, seed, props, tb_every=5, first0=0, length=6, extra_flags=()):
+    jobs = []
+    for i in range(nseeds):
+        tb = tb_every and (i % tb_every == tb_every - 1)
+        extra = extra_flags[i % len(extra_flags)] if extra_flags else ""
+        jobs.append(Job("miri", ["conc", "scen=%s" % scen, "seed=%d" % seed, "first=%d" % (first0 + i * per), "n=%d" % per, "len=%d" % length, "delay=1"],
+                        san_props=props, crash_props=props, miri_seed=seed * 4096 + i, tb=bool(tb), miri_extra=extra, timeout=1500))
+    return jobs
+
+
+def thin_jobs(mode, total, ops, seed, san_props, crash_props, nshards=4, first0=0, extra=(), timeout=900):
+    jobs = []
+    for (first, cnt) in shards(total, nshards):
+        jobs.append(Job(mode, ["thin", "seed=%d" % seed, "first=%d" % (first0 + first), "n=%d" % cnt, "ops=%d" % ops] + list(extra),
+                        san_props=san_props, crash_props=crash_props, timeout=timeout))
+    return jobs
+
+
+PREEMPT = ("", "-Zmiri-preemption-rate=0.1", "", "-Zmiri-preemption-rate=0.3", "-Zmiri-preemption-rate=0.03")
+
+
+class C02(Plan):
+    assumptions = COMMON_ASSUME + [
+        "happens-before is judged by Miri's vector-clock race detector (with weak-memory emulation) and by ThreadSanitizer on x86-64 hardware; "
+        "the set of legal load outcomes is sampled by Miri's emulation, not enumerated",
+        "the cfg(triomphe_verif) count hook only observes and delays (thread-local log, yield/spin); it adds no synchronisation",
+    ]
+
+    def jobs(self, tier, seed):
+        p = ("C02",)
+        j = []
+        if tier == "quick":
+            j += conc_jobs("dbg", "clonedrop", 6000, seed, p, delay=1, nshards=3)
+            j += conc_jobs("rel", "clonedrop", 6000, seed, p, delay=2, nshards=3, first0=10 ** 6)
+            j += conc_jobs("tsan", "clonedrop", 10000, seed, p, delay=1, nshards=3, first0=2 * 10 ** 6)
+            j += conc_jobs("tsan", "clonedrop", 10000, seed, p, delay=2, nshards=3, first0=3 * 10 ** 6)
+            j += conc_jobs("asan", "clonedrop", 4000, seed, p, delay=2, nshards=2, first0=4 * 10 ** 6)
+            j += miri_conc_jobs("clonedrop", 64, 6, seed, p, first0=5 * 10 ** 6, extra_flags=PREEMPT)
+        else:
+            j += conc_jobs("dbg", "clonedrop", 300000, seed, p, delay=1, nshards=8)
+            j += conc_jobs("rel", "clonedrop", 300000, seed, p, delay=2, nshards=8, first0=10 ** 6)
+            j += conc_jobs("off", "clonedrop", 100000, seed, p, delay=0, nshards=4, first0=6 * 10 ** 6)
+            for d in (0, 1, 2):
+                j += conc_jobs("tsan", "clonedrop", 330000, seed, p, delay=d, nshards=8, first0=(2 + d) * 10 ** 6, timeout=3000)
+            j += conc_jobs("asan", "clonedrop", 100000, seed, p, delay=2, nshards=8, first0=5 * 10 ** 6, timeout=3000)
+            j += miri_conc_jobs("clonedrop", 2048, 6, seed, p, first0=7 * 10 ** 6, extra_flags=PREEMPT)
+        return j
+
+    def coverage(self, counts, sets, samples, other, results):
+        return dict(
+            evaluations=counts.get("conc.clonedrop", 0),
+            distinct_nontrivial=len(sets.get("nontrivial_interleavings", ())),
+            distinct_interleavings=len(sets.get("interleavings", ())),
+            rule="one evaluation = one multi-threaded execution (2-4 threads, 1-2 common allocations, random clone/convert/read/drop programs over Arc/OffsetArc/ArcUnion/raw/dyn/"
+                 "HeaderSlice/arc-swap and ThinArc/fat/protected handles; the spawner lets go before joining) under a race detector or the monitors; an interleaving "
+                 "signature is the per-thread sequence of (thread, count operation, value observed) recorded by the count hook; non-trivial = the destroyer differs from "
+                 "some thread that read the payload",
+            samples=samples,
+            destroyer_thread_histogram=sub(counts, "conc.destroyer."),
+            count_events=counts.get("conc.count_events", 0),
+            payload_reads=counts.get("conc.payload_reads", 0),
+            miri_seeds=sum(1 for r in results if r.job.mode == "miri"),
+            tsan_executions=sum(rec.get("counts", {}).get("conc.clonedrop", 0) for r in results if r.job.mode == "tsan" for rec in r.records if rec.get("t") == "stats"),
+            hooked=bool(other.get("hooked")),
+        )
+
+    def required(self, counts, sets, other):
+        miss = need(counts, ["conc.destroyer.t0", "conc.destroyer.t1", "conc.destroyer.t2", "conc.destroyer.t3"])
+        if not other.get("hooked"):
+            miss.append("count hook not active")
+        return miss
+
+
+class HistConc(HistPlan):
+    """hist + thin histories, plus schedules of one conc scenario."""
+    scen = "uniqpoll"
+    with_thin = False
+    quick = dict(dbg=1200, rel=600, nostd=300, ops=220)
+    thorough = dict(dbg=120000, rel=60000, off=20000, nostd=20000, ops=300)
+    san_props = ()
+    crash_props = ()
+    per_cycle = 8  # executions that cover every API variant once
+
+    def jobs(self, tier, seed):
+        p = (self.prop,)
+        j = HistPlan.jobs(self, tier, seed)
+        big = tier != "quick"
+        j += thin_jobs("dbg", 40000 if big else 400, 220, seed, (), (), nshards=8 if big else 2)
+        if not big:
+            j += conc_jobs("dbg", self.scen, 4000, seed, p, delay=1, nshards=2)
+            j += conc_jobs("rel", self.scen, 4000, seed, p, delay=2, nshards=2, first0=10 ** 6)
+            j += conc_jobs("tsan", self.scen, 20000, seed, p, delay=1, nshards=4, first0=2 * 10 ** 6)
+            j += conc_jobs("asan", self.scen, 2000, seed, p, delay=2, nshards=1, first0=3 * 10 ** 6)
+            j += miri_conc_jobs(self.scen, 48, self.per_cycle, seed, p, first0=4 * 10 ** 6, extra_flags=PREEMPT)
+        else:
+            j += conc_jobs("dbg", self.scen, 200000, seed, p, delay=1, nshards=8)
+            j += conc_jobs("rel", self.scen, 200000, seed, p, delay=2, nshards=8, first0=10 ** 6)
+            for d in (0, 1, 2):
+                j += conc_jobs("tsan", self.scen, 330000, seed, p, delay=d, nshards=8, first0=(2 + d) * 10 ** 6, timeout=3000)
+            j += conc_jobs("asan", self.scen, 50000, seed, p, delay=2, nshards=4, first0=5 * 10 ** 6, timeout=3000)
+            j += miri_conc_jobs(self.scen, 1024, self.per_cycle, seed, p, first0=6 * 10 ** 6, extra_flags=PREEMPT)
+        return j
+
+
+def uniq_table(counts):
+    """api -> {grants, declines, co-owner kinds seen at a decline}"""
+    t = {}
+    for k, v in counts.items():
+        if not k.startswith("uniq."):
+            continue
+        parts = k[5:].split(".with:")
+        head = parts[0]
+        if head.endswith(".grant"):
+            api, what = head[:-6], "grants"
+        elif head.endswith(".decline"):
+            api, what = head[:-8], "declines"
+        else:
+            api, what = head, "calls"
+        e = t.setdefault(api, dict(grants=0, declines=0, calls=0, co_owner_kinds=set()))
+        e[what] += v
+        if len(parts) > 1:
+            e["co_owner_kinds"].update(x for x in parts[1].split("+") if x)
+    for e in t.values():
+        e["co_owner_kinds"] = sorted(e["co_owner_kinds"])
+    return t
+
+
+class C03(HistConc):
+    prop = "C03"
+    scen = "uniqpoll"
+    per_cycle = 8
+    assumptions = COMMON_ASSUME + [
+        "schedule half: Miri's race detector / ThreadSanitizer decide whether every former sharer's access happens-before the granted write; "
+        "legal load outcomes are sampled by Miri's weak-memory emulation, not enumerated",
+    ]
+
+    def coverage(self, counts, sets, samples, other, results):
+        t = uniq_table(counts)
+        cells = set()
+        for api, e in t.items():
+            for k in e["co_owner_kinds"]:
+                cells.add((api, k))
+        return dict(
+            evaluations=sum(e["grants"] + e["declines"] + e["calls"] for e in t.values()) + prefix_sum(counts, "conc.uniqpoll."),
+            distinct_nontrivial=len(cells),
+            rule="one evaluation = one call of a uniqueness-gated API in a model-checked history (verdict compared with the model's owner count over all handle kinds) "
+                 "or one multi-threaded poll-and-mutate execution; distinct_nontrivial = distinct (API, co-owner handle kind present at a decline) cells observed",
+            samples=samples,
+            per_api=t,
+            schedule_executions=sub(counts, "conc.uniqpoll."),
+            distinct_interleavings=len(sets.get("interleavings", ())),
+            miri_seeds=sum(1 for r in results if r.job.mode == "miri"),
+        )
+
+    def required(self, counts, sets, other):
+        t = uniq_table(counts)
+        miss = []
+        for api in UNIQ_APIS:
+            e = t.get(api)
+            if not e or (e["grants"] == 0 and api not in ()) or (e["declines"] == 0 and api not in ("unwrap_or_clone", "make_mut", "make_unique", "off.make_mut")):
+                miss.append("uniq." + api)
+        for api in ("get_mut", "is_unique+get_mut", "get_unique", "try_unique", "try_from", "try_unwrap", "thin.with_arc_mut.get_mut", "off.make_mut-when-unique"):
+            if counts.get("conc.uniqpoll.%s.granted" % api, 0) == 0:
+                miss.append("conc.uniqpoll.%s.granted" % api)
+        return miss
+
+
+class C08(HistConc):
+    prop = "C08"
+    scen = "cow"
+    per_cycle = 6
+    assumptions = COMMON_ASSUME + ["schedule half: race detectors decide whether an in-place write raced a reader; readers also compare every read with their snapshot"]
+
+    def coverage(self, counts, sets, samples, other, results):
+        t = {k: v for k, v in uniq_table(counts).items() if k in ("make_mut", "make_unique", "off.make_mut")}
+        cells = set()
+        for api, e in t.items():
+            for k in e["co_owner_kinds"]:
+                cells.add((api, k))
+        return dict(
+            evaluations=sum(e["grants"] + e["declines"] for e in t.values()) + prefix_sum(counts, "conc.cow."),
+            distinct_nontrivial=len(cells),
+            rule="one evaluation = one make_mut/make_unique/OffsetArc::make_mut call in a model-checked history (allocation identity, clone count, counts and every other "
+                 "handle's view compared before/after the write) or one writer-vs-readers execution; distinct_nontrivial = distinct (API, co-owner kind at a copying call) cells; "
+                 "'grants' = in-place calls, 'declines' = copying calls",
+            samples=samples,
+            per_api=t,
+            schedule_executions=sub(counts, "conc.cow."),
+            miri_seeds=sum(1 for r in results if r.job.mode == "miri"),
+        )
+
+    def required(self, counts, sets, other):
+        miss = []
+        for api in ("make_mut", "make_unique", "off.make_mut"):
+            for br in ("in-place", "copied"):
+                if counts.get("conc.cow.%s.%s" % (api, br), 0) == 0:
+                    miss.append("conc.cow.%s.%s" % (api, br))
+            if counts.get("uniq.%s.grant" % api, 0) == 0:
+                miss.append("uniq.%s.grant" % api)
+        return miss
+
+
+class C09(HistConc):
+    prop = "C09"
+    scen = "unwraprace"
+    per_cycle = 6
+    assumptions = COMMON_ASSUME + ["schedule half: identity registry decides 'handed out at most once / destroyed exactly once'; race detectors decide ordering"]
+
+    def coverage(self, counts, sets, samples, other, results):
+        apis = ("try_unwrap", "try_unique", "try_from", "unwrap_or_clone")
+        t = {k: v for k, v in uniq_table(counts).items() if k in apis}
+        cells = set()
+        for api, e in t.items():
+            for k in e["co_owner_kinds"]:
+                cells.add((api, k))
+        return dict(
+            evaluations=sum(e["grants"] + e["declines"] for e in t.values()) + counts.get("uniq.into_inner", 0) + prefix_sum(counts, "conc.unwraprace."),
+            distinct_nontrivial=len(cells),
+            rule="one evaluation = one unwrapping call in a model-checked history (identity of the returned value / handle, clone counter, allocator events) or one execution of "
+                 "2-3 threads racing try_unwrap/try_unique/TryFrom/unwrap_or_clone/drop on handles to one value; distinct_nontrivial = distinct (API, co-owner kind at a decline) cells",
+            samples=samples,
+            per_api=t,
+            into_inner_calls=counts.get("uniq.into_inner", 0),
+            moved_out=sub(counts, "moved_out_by."),
+            race_outcomes=sub(counts, "conc.unwraprace."),
+            distinct_interleavings=len(sets.get("interleavings", ())),
+            miri_seeds=sum(1 for r in results if r.job.mode == "miri"),
+        )
+
+    def required(self, counts, sets, other):
+        return need(counts, ["conc.unwraprace.receivers=0", "conc.unwraprace.receivers=1", "moved_out_by.try_unwrap", "moved_out_by.into_inner", "moved_out_by.unwrap_or_clone"])
+
+
+class C10(Plan):
+    assumptions = COMMON_ASSUME + ["header/element shapes are the 8 pairs listed in the evidence; lengths 0,1,2,3,4,7,8,17"]
+
+    def jobs(self, tier, seed):
+        p = ("C10",)
+        if tier == "quick":
+            j = thin_jobs("dbg", 1600, 220, seed, p, p, nshards=4)
+            j += thin_jobs("rel", 800, 220, seed, p, p, nshards=2, first0=10 ** 6)
+            j += thin_jobs("nostd", 400, 220, seed, p, p, nshards=2, first0=2 * 10 ** 6)
+            j += thin_jobs("asan", 320, 220, seed, p, p, nshards=4, first0=3 * 10 ** 6, extra=["shadow=0"])
+            j += miri_hist_jobs(12, 80, seed, p, tb_every=4, engine="thin")
+        else:
+            j = thin_jobs("dbg", 100000, 300, seed, p, p, nshards=16)
+            j += thin_jobs("rel", 60000, 300, seed, p, p, nshards=16, first0=10 ** 6)
+            j += thin_jobs("off", 20000, 300, seed, p, p, nshards=8, first0=5 * 10 ** 6)
+            j += thin_jobs("nostd", 20000, 300, seed, p, p, nshards=8, first0=2 * 10 ** 6)
+            j += thin_jobs("asan", 16000, 300, seed, p, p, nshards=16, first0=3 * 10 ** 6, extra=["shadow=0"])
+            j += thin_jobs("memcheck", 320, 150, seed, p, p, nshards=16, first0=4 * 10 ** 6, extra=["shadow=0"], timeout=3000)
+            j += miri_hist_jobs(128, 140, seed, p, tb_every=4, engine="thin")
+        return j
+
+    def coverage(self, counts, sets, samples, other, results):
+        edges = sub(counts, "thin.edge:")
+        return dict(
+            evaluations=counts.get("thin.histories", 0),
+            operations=counts.get("thin.ops", 0),
+            distinct_nontrivial=len([k for k, v in counts.items() if v and (k.startswith("thin.edge:") or k.startswith("thin.with_arc_mut") or k.startswith("thin.create:") or k.startswith("thin.final_release_by."))]),
+            rule="one evaluation = one seeded history over ThinArc / fat Arc / protected Arc / raw c_void / UniqueArc / arc-swap handles with tracked header and elements; after every "
+                 "step every handle's recorded length, slice length, header/element values and addresses are compared with the model and with the fat Arc lent by with_arc; "
+                 "distinct_nontrivial = distinct operation kinds exercised (conversion/clone edges, constructors, with_arc_mut callback behaviours, releasing handle kinds)",
+            samples=samples,
+            edges=edges,
+            refused_into_thin=counts.get("thin.bad_into_thin", 0),
+            with_arc_mut={k: v for k, v in counts.items() if k.startswith("thin.with_arc_mut")},
+            shapes=sub(counts, "thin.shape."),
+            allocator_checked_frees=other.get("checked_frees", 0),
+        )
+
+    def required(self, counts, sets, other):
+        return need(counts, ["thin.bad_into_thin", "thin.with_arc_mut.replace", "thin.with_arc_mut.replace+panic", "thin.with_arc_mut.panic",
+                             "thin.edge:thin->fat", "thin.edge:fat->thin", "thin.edge:thin->prot", "thin.edge:prot->thin", "thin.edge:thin->raw", "thin.edge:raw->thin",
+                             "thin.create:with_arc_mut-fresh"])
+
+
 PLANS = {}
 PLANS["C01"] = C01()
 PLANS["C04"] = C04()
+PLANS["C02"] = C02()
+PLANS["C03"] = C03()
+PLANS["C08"] = C08()
+PLANS["C09"] = C09()
+PLANS["C10"] = C10()
